@@ -65,10 +65,16 @@ fn gen_sequences(tier: &str, seed: u64, out: &mut dyn FnMut(Value)) {
             ..Default::default()
         };
         let len = 4 + rng.below(10);
+        // half of the sequences stay within two or three kinds of events, so that a kind comes back several times
+        let few = rng.chance(1, 2);
         let events: Vec<Value> = (0..len)
             .map(|_| {
                 let fields = if errs && rng.chance(1, 2) { json!([[["x"], {"s": *rng.pick(&["1", "0"])}]]) } else { json!([]) };
-                json!({"source": *rng.pick(&srcs), "id": *rng.pick(&ids), "fields": fields})
+                if few {
+                    json!({"source": *rng.pick(&["a", "a", "b"]), "id": *rng.pick(&[1i64, 1, -1]), "fields": fields})
+                } else {
+                    json!({"source": *rng.pick(&srcs), "id": *rng.pick(&ids), "fields": fields})
+                }
             })
             .collect();
         out(json!({"op": "scenario", "rules": [r.to_json(&mut rng)], "events": events, "tag": "sequences on one engine", "nt": true}));
@@ -137,6 +143,24 @@ pub fn gen(tier: &str, seed: u64, out: &mut dyn FnMut(Value)) {
     }
     let mut rng = Rng::new(seed);
     crate::props::engine_props::many_kinds(&mut rng, out);
+    {
+        use crate::dsl::SRule;
+        let sections: Vec<Value> = vec![json!([["a", []]]), json!([["a", [-3]]]), json!([["a", [-3, -1]]]), json!([["a", [1]]]), json!([["a", [1, -3]]]), json!([["a", [1, 2, -3]]]), json!([["a", []], ["b", [2]]]), json!([["a", [-3]], ["b", [2]]]), json!("absent"), json!([])];
+        let events: Vec<Value> = (-4i64..=4).flat_map(|id| ["a", "b"].into_iter().map(move |s| json!({"source": s, "id": id, "fields": []}))).collect();
+        for (i, m1) in sections.iter().enumerate() {
+            for (j, m2) in sections.iter().enumerate() {
+                if i == j {
+                    continue;
+                }
+                let rules = vec![
+                    SRule { name: "first".into(), match_on: Some(m1.clone()), ..Default::default() },
+                    SRule { name: "second".into(), match_on: Some(m2.clone()), severity: Some(1), ..Default::default() },
+                    SRule { name: "third".into(), match_on: Some(m1.clone()), severity: Some(2), ..Default::default() },
+                ];
+                out(json!({"op": "scenario", "rules": rules.iter().map(|r| r.to_json(&mut rng)).collect::<Vec<_>>(), "events": events, "tag": "neighbouring rules with similar sections", "nt": true}));
+            }
+        }
+    }
     // ids around the powers of two (whatever compact form a set of ids is kept in, 64 is not 0 and 256 is not 0)
     {
         let pts = [0i64, 1, 31, 32, 33, 63, 64, 65, 127, 128, 129, 255, 256, 257, 4294967296, 4294967360];
